@@ -7,6 +7,7 @@ import (
 	"io"
 	"net"
 	"net/url"
+	"os"
 	"runtime"
 	"strings"
 	"sync"
@@ -47,6 +48,28 @@ func (j *jitterConn) Write(p []byte) (int, error) {
 	return j.Conn.Write(p)
 }
 
+// sessionParams: the permessage-deflate parameters of a session kind (window sizes are negotiated
+// only; compress/flate always uses the 32 KiB window, which every receiver accepts).
+func sessionParams(kind int) wsflate.Parameters {
+	switch kind {
+	case 3:
+		return wsflate.Parameters{ServerMaxWindowBits: 10, ClientMaxWindowBits: 12}
+	case 5:
+		return wsflate.Parameters{ServerNoContextTakeover: true, ClientNoContextTakeover: true, ServerMaxWindowBits: 15}
+	case 7:
+		return wsflate.Parameters{ClientMaxWindowBits: 8, ServerMaxWindowBits: 9, ClientNoContextTakeover: true}
+	}
+	return wsflate.DefaultParameters
+}
+
+func extsString(es []httphead.Option) string {
+	s := ""
+	for _, e := range es {
+		s += "|" + extString(e)
+	}
+	return s
+}
+
 // session runs one full connection of the given kind and returns the ordered
 // observations of both peers (payloads as digests).
 func session(kind int, id int) (obs []string, late func() []string, err error) {
@@ -72,7 +95,7 @@ func session(kind int, id int) (obs []string, late func() []string, err error) {
 		if kind%4 == 0 {
 			hs, serr = ws.Upgrade(cb) // DefaultUpgrader
 		} else {
-			ext := wsflate.Extension{Parameters: wsflate.DefaultParameters}
+			ext := wsflate.Extension{Parameters: sessionParams(kind)}
 			u := ws.Upgrader{Protocol: func(p []byte) bool { return string(p) == "proto-"+tag }, Negotiate: ext.Negotiate,
 				Header: ws.HandshakeHeaderString("X-Session: " + tag + "\r\n")}
 			hs, serr = u.Upgrade(cb)
@@ -80,7 +103,7 @@ func session(kind int, id int) (obs []string, late func() []string, err error) {
 		if serr != nil {
 			return
 		}
-		sobs = append(sobs, "hs:"+hs.Protocol+fmt.Sprint(len(hs.Extensions)))
+		sobs = append(sobs, "hs:"+hs.Protocol+fmt.Sprint(len(hs.Extensions))+extsString(hs.Extensions))
 		keepProto = hs.Protocol
 		for {
 			var ms wsflate.MessageState
@@ -132,7 +155,7 @@ func session(kind int, id int) (obs []string, late func() []string, err error) {
 	}()
 	go func() { // client
 		defer wg.Done()
-		d := ws.Dialer{Protocols: []string{"proto-" + tag, "zzz"}, Extensions: []httphead.Option{wsflate.DefaultParameters.Option()},
+		d := ws.Dialer{Protocols: []string{"proto-" + tag, "zzz"}, Extensions: []httphead.Option{sessionParams(kind).Option()},
 			Header: ws.HandshakeHeaderString("X-Client: " + tag + "\r\n")}
 		if kind%4 == 0 {
 			d = ws.DefaultDialer
@@ -146,7 +169,7 @@ func session(kind int, id int) (obs []string, late func() []string, err error) {
 		if br != nil {
 			ws.PutReader(br)
 		}
-		cobs = append(cobs, "hs:"+hs.Protocol+fmt.Sprint(len(hs.Extensions)))
+		cobs = append(cobs, "hs:"+hs.Protocol+fmt.Sprint(len(hs.Extensions))+extsString(hs.Extensions))
 		keepCProto, keepExts = hs.Protocol, hs.Extensions
 		for mi, sz := range sizes {
 			msg := vh.PBytes(kind*10+mi, 0, sz)
@@ -230,6 +253,32 @@ func c19(c *ctx) {
 		Rule: "records = one per concurrently run session: N in {2, 8, 64} goroutine pairs x GOMAXPROCS in {1, 2, 16}, each a full connection over its own net.Pipe (library dialer <-> library upgrader incl. DefaultDialer/ws.Upgrade, plain and permessage-deflate, messages of 0..70000 bytes fragmented by 64/125/4096-byte writers, pings, pooled GetWriter/PutWriter echo, close handshake), with seeded Gosched/short-read jitter; each session's ordered observations must equal those of the same session run alone; distinct = (kind, N, GOMAXPROCS)"}
 	kinds := 8
 	solo := map[int][]string{}
+	// C19_COLD: the very first sessions of the process run concurrently (nothing has been initialised by
+	// an earlier sequential session); their solo references are taken afterwards
+	type coldRes struct {
+		obs []string
+		err error
+	}
+	var cold []coldRes
+	if os.Getenv("C19_COLD") != "" {
+		cold = make([]coldRes, 16)
+		var wg sync.WaitGroup
+		start := make(chan struct{})
+		for i := range cold {
+			wg.Add(1)
+			go func(i int) {
+				defer wg.Done()
+				<-start
+				o, late, err := session(i%kinds, 7000+i)
+				if late != nil {
+					o = append(o, late()...)
+				}
+				cold[i] = coldRes{o, err}
+			}(i)
+		}
+		close(start)
+		wg.Wait()
+	}
 	for k := 0; k < kinds; k++ {
 		o, late, err := session(k, 1000+k)
 		if err != nil {
@@ -239,9 +288,23 @@ func c19(c *ctx) {
 	}
 	meta.Samples = append(meta.Samples, solo[3])
 	n := 0
+	for i, r := range cold {
+		key := fmt.Sprintf("cold/%d", i)
+		obs := r.obs
+		if obs == nil {
+			obs = []string{fmt.Sprint(r.err)}
+		}
+		out.Emit(map[string]interface{}{"k": "session", "key": key, "kind": i % kinds, "n": len(cold), "procs": 16, "completed": r.err == nil,
+			"obs": obs, "solo": solo[i%kinds], "races": 0}, true)
+		n++
+		shapes.Add("cold/%d", i%kinds)
+	}
 	rounds := 1
 	if c.thorough {
 		rounds = 6
+	}
+	if cold != nil {
+		rounds = 0
 	}
 	for round := 0; round < rounds; round++ {
 		for _, procs := range []int{1, 2, 16} {
